@@ -36,6 +36,7 @@ PROPS = {
             dict(name="TestSeq", quick=5000, thorough=480000, shards_thorough=8),
             dict(name="TestKnownProbes", quick=1, thorough=1, shards_thorough=1, rapid=False),
             dict(name="TestConc", quick=300, thorough=20000, shards_thorough=8, race=True, shrinktime="2s"),
+            dict(name="TestOnceWhileDraining", quick=400, thorough=20000, shards_thorough=16, shrinktime="5s"),
         ],
     ),
     "C05": dict(
